@@ -3507,6 +3507,83 @@ def main():
         T(q, "register/quant.rs", "get_vreg_by", "quant_get_vreg_by", struct="QReg", impl=r"impl Reg")
     group("register/quant.rs", quant)
 
+    # ---- register/quant.rs: the threading model (`threading::Model::and`, `QReg::num_threads`). The register record of the
+    # translation has no `th` field (thread-model independence is the twin check), so these two are emitted on the model
+    # type `ThG` directly: the arms of `and` as a Lean match, `num_threads` as the model it installs (`Self { th: X, ..self }`
+    # read as X; `rayon::current_num_threads()` is the input `avail`)
+    def threadfile(t):
+        def th_term(e, env):
+            e = unparen(e)
+            if e[0] == "path" and e[1][-1] == "Single":
+                return "ThG.single"
+            if e[0] == "call" and unparen(e[1])[0] == "path" and unparen(e[1])[1][-1] == "Multi" and len(e[2]) == 1:
+                a = unparen(e[2][0])
+                if a[0] == "path" and len(a[1]) == 1 and a[1][0] in env:
+                    return f"ThG.multi {a[1][0]}"
+                if a[0] == "mcall" and a[2] == "max" and len(a[3]) == 1 and unparen(a[1])[0] == "path" and unparen(a[3][0])[0] == "path":
+                    x, y = unparen(a[1])[1][0], unparen(a[3][0])[1][0]
+                    if x in env and y in env:
+                        return f"ThG.multi (max {x} {y})"
+            raise Unsupported(f"register/quant.rs::and: threading model expression {e}")
+        def th_pat(pt, env):
+            if pt == ("ppath", ["Single"], None):
+                return "ThG.single"
+            if pt[0] == "ppath" and pt[1] == ["Multi"] and pt[2] and len(pt[2]) == 1 and pt[2][0][0] == "pid":
+                env.add(pt[2][0][1])
+                return f"ThG.multi {pt[2][0][1]}"
+            raise Unsupported("register/quant.rs::and: pattern")
+        params, ret, body = find_fn(t, "and")
+        mt = unparen(body[2]) if body[0] == "block" and not body[1] else None
+        if not (mt and mt[0] == "match" and unparen(mt[1]) == ("tuple", [("path", ["self"]), ("path", ["other"])])):
+            raise Unsupported("register/quant.rs::and: not a match on (self, other)")
+        arms = []
+        for pat, guard, b in mt[2]:
+            if guard is not None or pat[0] != "ptuple" or len(pat[1]) != 2:
+                raise Unsupported("register/quant.rs::and: arm")
+            env = set()
+            l, r = th_pat(pat[1][0], env), th_pat(pat[1][1], env)
+            arms.append(f"  | {l}, {r} => {th_term(b, env)}")
+        tr.out.append("/-- `register/quant.rs`: `threading::Model` -/\ninductive ThG where\n  | single\n  | multi (n : Nat)\nderiving DecidableEq, Repr\n")
+        tr.out.append("/-- `register/quant.rs`: `threading::Model::and` -/\ndef th_and (self_ other : ThG) : ThG :=\n  match self_, other with\n" + "\n".join(arms) + "\n")
+        params, ret, body = find_fn(t, "num_threads")
+        def lit(e):
+            e = unparen(e)
+            return e[0] == "int" and e[1]
+        def walk_if(e):
+            e = unparen(e)
+            if e[0] == "block" and not e[1]:
+                return walk_if(e[2])
+            if e[0] == "if":
+                c = unparen(e[1])
+                def cond(c):
+                    c = unparen(c)
+                    if c[0] == "bin" and c[1] == "||":
+                        return f"({cond(c[2])} || {cond(c[3])})"
+                    if c[0] == "bin" and c[1] in ("==", ">"):
+                        def side(x):
+                            x = unparen(x)
+                            if x[0] == "int":
+                                return str(x[1])
+                            if x == ("path", ["num_threads"]):
+                                return "num_threads"
+                            if x[0] == "call" and unparen(x[1]) == ("path", ["rayon", "current_num_threads"]) and not x[2]:
+                                return "avail"
+                            raise Unsupported("register/quant.rs::num_threads: operand")
+                        op = "==" if c[1] == "==" else ">"
+                        return f"decide ({side(c[2])} {'=' if op == '==' else '>'} {side(c[3])})"
+                    raise Unsupported("register/quant.rs::num_threads: condition")
+                return f"if {cond(c)} then {walk_if(e[2])} else {walk_if(e[3])}"
+            if e == ("path", ["None"]):
+                return "none"
+            if e[0] == "call" and unparen(e[1]) == ("path", ["Some"]) and len(e[2]) == 1:
+                st = unparen(e[2][0])
+                if st[0] == "struct" and st[1] == ["Self"] and [f for f, _ in st[2]] == ["th"] and unparen(st[3]) == ("path", ["self"]):
+                    return f"some ({th_term(st[2][0][1], {'num_threads'})})"
+            raise Unsupported("register/quant.rs::num_threads: shape")
+        tr.out.append("/-- `register/quant.rs`: `num_threads` (the threading model it installs; `avail` = `rayon::current_num_threads()`) -/\n"
+                      f"def quant_num_threads (num_threads avail : Nat) : Option ThG :=\n  {walk_if(body)}\n")
+    group("register/quant.rs", threadfile)
+
     # ---- qasm/int/mod.rs: declarations, argument resolution, measure / reset statements, queue separators
     # (the model's record `Interp R` is used for the interpreter state; gate application / definitions, which
     # need the macro table and the external AST, stay hand-modelled)
